@@ -45,7 +45,7 @@ def units(rng, tier):
     # mid-sized values, screened with the model): branches that share or lose items show here
     from harness.pcommon import hard_bc_instances
     for C, v in hard_bc_instances(rng, 8000 if tier == "quick" else 80000, 900 if tier == "quick" else 9000):
-        us.append(pack_unit("bc", C, v, family="bc-search-runs(screened)"))
+        us.append(pack_unit("bc", C, v, family="bc-search-runs(screened)", out=rng.choice(["pst", "pst", "sums"])))
     # with repeated values: a dense stream of exactly such inputs (few distinct values, 5..9 items)
     for _ in range(12000 if tier == "quick" else 120000):
         C = rng.choice([10, 12, 20, 30])
@@ -65,6 +65,12 @@ def judge_requests(u, impl, model):
     p = u["params"]
     if "exc" in impl:
         return [("py", None, f"unexpected exception {impl['exc']} on a valid packing request")]
+    if p["out"] == "sums" and isinstance(impl.get("sums"), list):
+        # the sums-only manager follows the same search: its sums must be sums of a feasible packing of the same items
+        sm = impl["sums"]
+        if any((not isinstance(x, int)) or x > p["C"] for x in sm) or sum(sm) != sum(p["vals"]) or (any(p["vals"]) and any(x == 0 for x in sm) and p["algo"] != "bc"):
+            return [("py", None, f"{p['algo']} (sums only, C={p['C']}, items {p['vals']}) reports sums {sm}: a sum above the bin size, or the sums do not total the items ({sum(p['vals'])})")]
+        return []
     if p["out"] not in ("pst", "pas"):
         return []
     m = malformed(impl)
